@@ -127,7 +127,7 @@ def curated():
     # state which itself includes another one in the middle
     add({"Root": [named("_Under", "a"), named("9Nine", "b"), named("lower", "c"), rule("\\s+", True)]})
     add({"Root": [inc("S1")], "S1": [rule("a"), inc("S2"), rule("b")], "S2": [rule("c"), rule("\\(")]})
-    add({"Root": [named("_U", "a+"), named("0Zero", "b"), named("\u00c9", "c"), named("Upper", "(?s).")]})      # no rule is elided: no byte may be dropped
+    add({"Root": [named("_U", "a+"), named("0Zero", "b"), named("Zed", "c"), named("Upper", "(?s).")]})      # no rule is elided: no byte may be dropped
     # a pattern that starts with ^ and has a top-level alternation: every alternative is anchored at the current position
     add({"Root": [rule("^a|b"), rule("c"), rule("\\s+", True)]})
     add({"Root": [rule("\\Aa|c"), rule("(?m)^b|a"), rule("(?s).")]})
